@@ -20,8 +20,9 @@ InsTSNow == IF mode = "top" THEN {TopT - 1, TopT} ELSE InsTS
 
 \* timestamps under which id i may be handed in
 TsOf(i) == IF i \in DOMAIN gens THEN {gens[i]} ELSE InsTSNow
-Maps(S) == {m \in [S -> TS] : \A i \in S : m[i] \in TsOf(i)}
-Pairs == {<<i, t>> : i \in Id, t \in TS}
+AllTs == InsTSNow \cup {gens[i] : i \in DOMAIN gens}
+Maps(S) == {m \in [S -> AllTs] : \A i \in S : m[i] \in TsOf(i)}
+Pairs == {<<i, t>> : i \in Id, t \in AllTs}
 Seqs == UNION {[1..n -> {p \in Pairs : p[2] \in TsOf(p[1])}] : n \in 0..MaxSeq}
 
 BundleJson(b) == {[id |-> i, ts |-> b[i]] : i \in DOMAIN b}
@@ -61,11 +62,16 @@ Tick ==
     /\ wall' \in Walls \ {wall}
     /\ UNCHANGED <<vars, mode, steps, hist>>
 
-Call == DoInsert \/ DoRemove \/ DoExtend \/ DoFromSecrets \/ DoGenerate
+Bounded == /\ MaxSteps = 0 \/ steps < MaxSteps
+           /\ steps' = (IF MaxSteps = 0 THEN 0 ELSE steps + 1)
+           /\ UNCHANGED <<wall, mode>>
+CallInsert == Bounded /\ DoInsert
+CallRemove == Bounded /\ DoRemove
+CallExtend == Bounded /\ DoExtend
+CallFromSecrets == Bounded /\ DoFromSecrets
+CallGenerate == Bounded /\ DoGenerate
 
-MCNext ==
-    \/ (MaxSteps = 0 \/ steps < MaxSteps) /\ Call /\ steps' = (IF MaxSteps = 0 THEN 0 ELSE steps + 1) /\ UNCHANGED <<wall, mode>>
-    \/ Tick
+MCNext == CallInsert \/ CallRemove \/ CallExtend \/ CallFromSecrets \/ CallGenerate \/ Tick
 MCSpec == MCInit /\ [][MCNext]_mcvars
 
 NoHistView == <<bundle, latest, gens, lastGen, used, added, pure, mode, wall, steps>>
